@@ -11,6 +11,7 @@ from vt.checks.c01 import cancellation_bound
 
 PROPERTY = "C02"
 TITLE = "Reciprocity and stratified-medium symmetries"
+TECHNIQUE = ('runtime monitoring, metamorphic oracle: the same endpoint pair executed as given, swapped, translated and rotated (float and integer representations) and the recorded solution sets compared; mechanism-keyed known-finding classifiers')
 ANCHORS = ["pyrex.ray_tracing:BasicRayTracer.solutions", "pyrex.ray_tracing:BasicRayTracer.exists", "pyrex.ray_tracing:BasicRayTracer._get_launch_angle",
            "pyrex.ray_tracing:BasicRayTracePath.emitted_direction", "pyrex.ray_tracing:BasicRayTracePath.received_direction",
            "pyrex.ray_tracing:UniformRayTracer.solutions", "pyrex.ray_tracing:UniformRayTracePath._points",
@@ -226,7 +227,14 @@ def run_case(case):
         n_min = min(nsrc, nrec)
         for lay_ in getattr(ice, "layers", [ice]):
             n_min = min(n_min, float(lay_.index(float(lay_.valid_range[1]))))
-        return (1e-5 if fam == "layered-exp" else 1e-7) + (3 * btol / n_min if beta_ <= 1.05 * btol else 0.0)    # both executions may sit anywhere in the window
+        base = 1e-5 if fam == "layered-exp" else 1e-7
+        if fam == "layered-exp":
+            # conditioning: the direction of a straight leg is taken from its end points, so the junction positions' own
+            # agreement (measured <= 2e-6 of the path length) is divided by the length of the shortest leg
+            legs = [float(sp.path_length) for sp in getattr(p, "paths", [])]
+            if legs and min(legs) > 0:
+                base += 2e-6 * float(p.path_length) / min(legs)
+        return base + (3 * btol / n_min if beta_ <= 1.05 * btol else 0.0)    # both executions may sit anywhere in the window
 
     # ---- translation + rotation: same order of solutions
     for j, (p, w) in enumerate(zip(s1, s3)):
